@@ -7,6 +7,7 @@ verus! {
 //@@ INCLUDE lib/conv_approx.rs
 //@@ INCLUDE lib/conv_base_types.rs
 //@@ INCLUDE lib/conv_float.rs
+//@@ INCLUDE lib/conv_float_int.rs
 //@@ INCLUDE lib/conv_enc.rs
 //@@ INCLUDE lib/conv_int_stubs.rs
 //@@ INCLUDE lib/conv_sign_float.rs
